@@ -343,6 +343,11 @@ func StartChild(dir string, env []string, extra ...string) (*Child, string) {
 	in, _ := cmd.StdinPipe()
 	out, _ := cmd.StdoutPipe()
 	cmd.Stderr = io.Discard
+	os.MkdirAll(dir, 0o755)
+	if ef, err := os.OpenFile(filepath.Join(dir, "child.stderr"), os.O_CREATE|os.O_APPEND|os.O_WRONLY, 0o644); err == nil {
+		cmd.Stderr = ef // a panic that escapes a handler goroutine is reported here
+		defer ef.Close()
+	}
 	if os.Getenv("VERIF_VERBOSE") != "" {
 		cmd.Stderr = os.Stderr
 	}
@@ -426,6 +431,32 @@ func (c *Child) HTTP(method, path string, body []byte) (Resp, bool) {
 		panicMu.Unlock()
 	}
 	return r, true
+}
+
+// StderrTail: the last lines the child wrote to stderr (a Go panic trace when it died of one), badger noise dropped
+func (c *Child) StderrTail(n int) string {
+	b, err := os.ReadFile(filepath.Join(c.dir, "child.stderr"))
+	if err != nil {
+		return ""
+	}
+	var keep []string
+	for _, ln := range strings.Split(string(b), "\n") {
+		if strings.HasPrefix(ln, "badger ") || strings.TrimSpace(ln) == "" {
+			continue
+		}
+		keep = append(keep, ln)
+	}
+	// the head of a panic trace is what identifies it
+	for i, ln := range keep {
+		if strings.HasPrefix(ln, "panic:") || strings.HasPrefix(ln, "fatal error:") {
+			keep = keep[i:]
+			break
+		}
+	}
+	if len(keep) > n {
+		keep = keep[:n]
+	}
+	return strings.Join(keep, "\n")
 }
 
 func (c *Child) Stop(how string) {
